@@ -78,40 +78,68 @@ def population(rep, I, U, sizes, feat, weighted, nested, two_axes):
 
 
 def welford(rep, I, U, weighted, pmap, batch_shape=(3,)):
-  """One update from a symbolic state against B.6."""
+  """One update from a symbolic state against B.6.  With pmap_axis_name the update is run on TWO shards inside a named
+  mapped axis (psum = the cross-shard sum, exactly) and every shard must return the Welford step over the data of both
+  shards -- a semantic statement, indifferent to where the psum sits."""
   f = U.func(MOD + '.update')
   tag = 'weights=%s pmap=%s batch=%s' % (weighted, pmap, 'x'.join(map(str, batch_shape)))
   feat = 2
   c, mu, S = sym('c'), symarr('mu', (feat,)), symarr('S', (feat,))
   st = Struct('RunningStatisticsState', {'mean': mu, 'std': symarr('sd', (feat,)), 'count': c,
                                          'summed_variance': S}, home=MOD)
-  x = symarr('x', batch_shape + (feat,))
-  w = symarr('w', batch_shape) if weighted else None
+  shards = 2 if pmap else 1
+  xs = symarr('x', (shards,) + batch_shape + (feat,))
+  ws = symarr('w', (shards,) + batch_shape) if weighted else None
   smin, smax = sym('smin'), sym('smax')
-  kw = {'std_min_value': smin, 'std_max_value': smax}
+
+  def run(ws_):
+    def member(x, *w):
+      kw = {'std_min_value': smin, 'std_max_value': smax}
+      if weighted:
+        kw['weights'] = w[0]
+      if pmap:
+        kw['pmap_axis_name'] = 'i'
+      return I.apply(fn(MOD, 'update'), [st, x], kw)
+    if not pmap:
+      return [member(xs[0], *([ws_[0]] if weighted else []))]
+    out = I.apply(avn.Vmapped(('prim', 'member', member), in_axes=0, axis_name='i'), [xs] + ([ws_] if weighted else []), {})
+    return [I.tree_map(('prim', 'pick', lambda v, k=k: asarr(v)[k]), out) for k in range(shards)]
+
+  def reference(ws_):
+    nb = int(np.prod(batch_shape)) * shards
+    X = xs.reshape((nb, feat))
+    Wt = asarr(ws_).reshape((nb,)) if weighted else np.array([Rat.lift(1)] * nb, dtype=object)
+    count = c + Wt.sum()
+    d_old = (X - mu) * Wt[:, None]
+    mean = mu + d_old.sum(axis=0) / count
+    S2 = S + (d_old * (X - mean)).sum(axis=0)
+    std = elemwise(lambda s_: uf('clip', uf('sqrt', uf('max', *sorted([Rat.lift(s_), Rat.lift(0)], key=lambda r: repr(r.key()))) / count), smin, smax), S2)
+    return count, mean, S2, std
+  outs = run(ws)
+  count, mean, S2, std = reference(ws)
+  for k, out in enumerate(outs):
+    for what, got, want in (('count', out.f['count'], count), ('mean', out.f['mean'], mean),
+                            ('summed_variance', out.f['summed_variance'], S2), ('std', out.f['std'], std)):
+      key = '%s %s%s' % (what, tag, ' shard %d' % k if pmap else '')
+      if same(got, want):
+        rep.ok('R18.2', key, construct='update == batched Welford step (%s)' % what, where=f.where())
+      else:
+        rep.fail('R18.2', key, 'update.%s differs from the Welford step%s: %s' % (
+            what, ' over the data of all shards' if pmap else '', diff_report(got, want)), where=f.where())
   if weighted:
-    kw['weights'] = w
-  if pmap:
-    kw['pmap_axis_name'] = 'i'
-  out = I.apply(fn(MOD, 'update'), [st, x], kw)
-  ps = (lambda v: elemwise(lambda z: uf('psum', z, 'i'), v)) if pmap else (lambda v: v)
-  nb = int(np.prod(batch_shape))
-  inc = ps(w.sum() if weighted else Rat.lift(nb))
-  count = c + inc
-  axes = tuple(range(len(batch_shape)))
-  d_old = (x - mu) * (w.reshape(batch_shape + (1,)) if weighted else 1)
-  mean = mu + ps(d_old.sum(axis=axes) / count)
-  d_new = x - mean
-  S2 = S + ps((d_old * d_new).sum(axis=axes))
-  std = elemwise(lambda s_: uf('clip', uf('sqrt', uf('max', *sorted([Rat.lift(s_), Rat.lift(0)], key=lambda r: repr(r.key()))) / count), smin, smax), S2)
-  for what, got, want in (('count', out.f['count'], count), ('mean', out.f['mean'], mean),
-                          ('summed_variance', out.f['summed_variance'], S2), ('std', out.f['std'], std)):
-    key = '%s %s' % (what, tag)
-    if same(got, want):
-      rep.ok('R18.2', key, construct='update == batched Welford step (%s)' % what, where=f.where())
-    else:
-      rep.fail('R18.2', key, 'update.%s differs from the Welford step: %s' % (what, diff_report(got, want)),
-               where=f.where())
+    # a fully masked batch (every weight 0) after data has been seen is a no-op: nothing may divide by the batch's own weight
+    wz = P_zeros((shards,) + batch_shape)
+    key = 'fully masked batch is a no-op %s' % tag
+    try:
+      outs0 = run(wz)
+      ok = all(same(o.f['count'], c) and same(o.f['mean'], mu) and same(o.f['summed_variance'], S) for o in outs0)
+      rep.check(ok, 'R18.2', key, 'a batch whose weights are all 0 changes the running count / mean / summed variance', where=f.where(),
+                construct='weights = 0 for the whole batch: count, mean, summed_variance unchanged')
+    except avn.OutOfFragment as e:
+      if 'division by' not in str(e):
+        raise
+      rep.fail('R18.2', key, 'a batch whose weights are all 0 makes update divide by zero (%s): the statistics become NaN' % e,
+               where=f.where(), construct='weights = 0 for the whole batch')
 
 
 def norm_pair(rep, I, U):
@@ -150,6 +178,16 @@ def norm_pair(rep, I, U):
   want2 = elemwise(lambda v: uf('clip', v, -m, m), (x - symarr('mu', (3,))) / symarr('sd', (3,)))
   rep.check(same(nz2, want2), 'R18.3', 'normalize clips to +-max_abs_value', 'clip variant: ' + diff_report(nz2, want2),
             where=fnz.where())
+  # the statistics may be handed over as a full running state: whatever its count, normalize uses the mean / std it carries
+  run_st = Struct('RunningStatisticsState', {'mean': symarr('mu', (3,)), 'std': symarr('sd', (3,)), 'count': sym('cnt'),
+                                             'summed_variance': symarr('sv', (3,))}, home=MOD)
+  nz3 = I.apply(fn(MOD, 'normalize'), [x, run_st], {})
+  want3 = (x - symarr('mu', (3,))) / symarr('sd', (3,))
+  rep.check(same(nz3, want3), 'R18.3', 'normalize with a RunningStatisticsState (symbolic count) = (x - mean)/std',
+            lambda: 'normalize with a running state: ' + diff_report(nz3, want3), where=fnz.where())
+  dn3 = I.apply(fn(MOD, 'denormalize'), [nz3, run_st], {})
+  rep.check(same(dn3, x), 'R18.3', 'denormalize o normalize = id with a RunningStatisticsState',
+            lambda: 'round trip with a running state: ' + diff_report(dn3, x), where=fdn.where())
   st = _state(I, {'o': P_zeros((3,))})
   ok = same(st.f['count'], 0) and same(st.f['mean']['o'], P_zeros((3,))) and same(st.f['std']['o'], avn.P_ones((3,))) \
       and same(st.f['summed_variance']['o'], P_zeros((3,)))
